@@ -259,6 +259,27 @@ func genFrag(h *H) {
 			h.Run(Case{Op: "frag", A: map[string]string{"stack": "basex", "enc": e, "input": hx(s), "seed": hx(h.rng.Bytes(8)), "twocut": "0"}})
 		}
 	}
+	// ---- write side: every streaming sender, the message handed over in pieces through one reused scratch
+	// buffer (as io.Copy does): the bytes emitted equal the model's one-shot output and open to the message ----
+	nw := 6
+	if thorough {
+		nw = 200
+	}
+	for i := 0; i < nw; i++ {
+		msg := h.content([]int{0, 1, 100, 5000, 70000}[i%5] + h.rng.Intn(40))
+		pieces := splitPieces(h.rng, msg)
+		if len(pieces) < 2 && len(msg) > 1 {
+			pieces = [][]byte{msg[:len(msg)/2], msg[len(msg)/2:]}
+		}
+		h.tag("write-side:enc")
+		h.Run(sealCase(h.randSealSpec(2, h.rng.Intn(4)), pieces, sealRng(h.rng, 2), false))
+		h.tag("write-side:sc")
+		h.Run(scSealCase(h.randScSpec(1, 1), pieces, sealRng(h.rng, 2), false))
+		for _, mode := range []string{"att", "det"} {
+			h.tag("write-side:" + mode)
+			h.Run(signCase(mode, []string{"1.0", "2.0"}[i%2], h.randSigKey(), pieces, h.rng.Bytes(16), false))
+		}
+	}
 	// ---- (3) bounded memory: a long message through a streaming encoder and decoder ----
 	mb := 24
 	if thorough {
@@ -270,7 +291,7 @@ func genFrag(h *H) {
 
 func init() {
 	campaigns["C13"] = campaign{
-		rule: "cases: (1) punctuatedReader and chunkReader (exported under -tags verif) driven call by call with planned underlying read results (whole, one-byte, random, 4096-aligned, data delivered together with EOF or with an I/O error incl. whitespace-only slices, sentences around the 8192-byte limit) and caller buffer sizes from {1,2,3,7,31,32,33,43,4096}: every Read result equals the Coq state machine's, the pieces are the input cut at the periods, ReadUntilPunctuation depends on the bytes only; (2) whole decoding stacks (binary and armored: decrypt, verify, signcryption open, dearmor, basex decoder, classify-and-decrypt) on genuine, mutated, re-flowed and whitespace-padded inputs under 16 fragmentations each plus exhaustive two-cut splits: same success/failure, same bytes and identities on success, prefix-related released bytes on failure, and agreement with the model's denotation; (3) write-side: covered by every sender case with random Write splits (bytes equal the model's one-shot output) and the armor encoder; (4) a long message streamed through encrypt and decrypt streams with the live heap sampled. Distinct by (op,args) hash.",
+		rule: "cases: (1) punctuatedReader and chunkReader (exported under -tags verif) driven call by call with planned underlying read results (whole, one-byte, random, 4096-aligned, data delivered together with EOF or with an I/O error incl. whitespace-only slices, sentences around the 8192-byte limit) and caller buffer sizes from {1,2,3,7,31,32,33,43,4096}: every Read result equals the Coq state machine's, the pieces are the input cut at the periods, ReadUntilPunctuation depends on the bytes only; (2) whole decoding stacks (binary and armored: decrypt, verify, signcryption open, dearmor, basex decoder, classify-and-decrypt) on genuine, mutated, re-flowed and whitespace-padded inputs under 16 fragmentations each plus exhaustive two-cut splits: same success/failure, same bytes and identities on success, prefix-related released bytes on failure, and agreement with the model's denotation; (3) write-side: all four streaming senders fed in pieces through one reused scratch buffer (bytes equal the model's one-shot output, the message opens), and the armor encoder; (4) a long message streamed through encrypt and decrypt streams with the live heap sampled. Distinct by (op,args) hash.",
 		gen:  genFrag,
 	}
 }
